@@ -104,13 +104,27 @@ func runWsAsync(c *Case) []string {
 					p[i] = rwOutByte(atoi(id), i)
 				}
 				s.AsyncWrite(p, websocket.TypeBinary, func(err error) {
-					events = append(events, fmt.Sprintf("cb=%s:%d:-", id, loopErrClass(err)))
-					if nx, ok := chain[id]; ok {
+					if err != nil {
+						events = append(events, fmt.Sprintf("cb=%s:err%d", id, loopErrClass(err)))
+					} else {
+						events = append(events, fmt.Sprintf("cb=%s:0:-", id))
+					}
+					if nx, ok := chain[id]; ok && err == nil {
 						start(nx[0], atoi(nx[1]))
 					}
 				})
 			}
 			start(a[0], atoi(a[1]))
+			return tail()
+		case "close":
+			id := a[0]
+			s.AsyncClose(websocket.CloseNormal, "", func(err error) {
+				if err != nil {
+					events = append(events, fmt.Sprintf("cb=%s:err%d", id, loopErrClass(err)))
+				} else {
+					events = append(events, fmt.Sprintf("cb=%s:0:-", id))
+				}
+			})
 			return tail()
 		case "peer":
 			opc, p := atoi(a[0]), unhex(a[1])
